@@ -62,6 +62,14 @@ Definition env_set (e : env) (name : str) (v : value) : env :=
   | None => mkEnv (assoc_set name v (globals e)) (scopes e)
   end.
 
+(* Delete: remove a global *)
+Fixpoint assoc_remove (name : str) (l : scope) : scope :=
+  match l with
+  | [] => []
+  | (n, x) :: l' => if str_eqb n name then assoc_remove name l' else (n, x) :: assoc_remove name l'
+  end.
+Definition env_unset (e : env) (name : str) : env := mkEnv (assoc_remove name (globals e)) (scopes e).
+
 (* Declare: bind in the innermost scope (shadowing); nothing if no scope is open *)
 Definition env_declare (e : env) (name : str) (v : value) : env :=
   match scopes e with
